@@ -413,7 +413,7 @@ Section Case.
 
   (** the model's prediction of the observation *)
   Definition compare : option sexp :=
-    let st := static_ok E dt site_field argdefs defs args in
+    let st := static_ok all_fixed E dt site_field argdefs defs args in
     let vv := coerce_variable_values all_fixed E dt defs raw in
     let am := match vv with
               | Ok v => coerce_argument_values all_fixed E dt argdefs args v
@@ -444,7 +444,7 @@ Section Case.
 
   (** evidence classes *)
   Definition classes : list string :=
-    let st := static_ok E dt site_field argdefs defs args in
+    let st := static_ok all_fixed E dt site_field argdefs defs args in
     let vv := coerce_variable_values all_fixed E dt defs raw in
     let nested := existsb (fun a => match snd a with LVar _ => false | l => match lit_vars l with [] => false | _ => true end end) args in
     let top_var := existsb (fun a => match snd a with LVar _ => true | _ => false end) args in
